@@ -1,13 +1,15 @@
 package main
 
 import (
-	"fmt"
 	"daecheck/internal/core"
+	"fmt"
 )
 
 func main() {
 	p, err := core.Load(core.LoadOpts{Repo: "/repo", Tags: "dae_stub_ebpf", Variant: "stub"})
-	if err != nil { panic(err) }
+	if err != nil {
+		panic(err)
+	}
 	f := p.Func("config", "StringListParser")
 	fmt.Println(f.Graph().CFG.Format(p.Fset))
 }
